@@ -2110,3 +2110,8 @@ mod tests {
         std::fs::remove_dir_all(&base).ok();
     }
 }
+
+#[cfg(kani)]
+mod verif_kani {
+    include!(concat!(env!("REPE_VERIF_KANI"), "/value_stream.rs"));
+}
